@@ -133,3 +133,60 @@ def assigned_names(stmts):
         elif isinstance(n, ast.For) and isinstance(n.target, ast.Name):
             out.add(n.target.id)
     return out
+
+
+def generic_for_loops(inv_fixed, on_elem=None):
+    """loop hook: every `for` loop is executed from an arbitrary state satisfying the invariant `name == value` (inv_fixed):
+         (A) the loop is exhausted (zero or more complete iterations): names assigned in the body are arbitrary, the
+             invariant holds, the else-part runs;
+         (B) one generic iteration starting in an invariant state, target bound to an arbitrary element of the sequence:
+             a `break` leaves the loop with the state reached; otherwise the invariant must hold again (an 'inv_fail'
+             event is recorded when it does not) and the path ends.
+       The invariant is also checked on entry.  Sound for any number of iterations by induction on the iteration count."""
+    import ast
+
+    def names_of(s):
+        out = assigned_names(s.body)
+        for e in ast.walk(s.target):
+            if isinstance(e, ast.Name):
+                out.add(e.id)
+        return out
+
+    def check(it, env, where, s):
+        for k, v in inv_fixed.items():
+            if k in env and not (env[k] is v or (type(env[k]) is type(v) and env[k] == v)):
+                it.ctx.event('inv_fail', where=where, name=k, line=s.lineno)
+
+    def hook(it, s, env):
+        ctx = it.ctx
+        seq = it.ev(s.iter, env)
+        check(it, env, 'entry', s)
+        names = names_of(s)
+        exhausted = ctx.branch(ctx.fresh_bool(f'loop{s.lineno}_exhausted'), 'generic loop')
+        for n in names:
+            if n in inv_fixed:
+                env[n] = inv_fixed[n]
+            else:
+                o = cx.Opaque(f'havoc:{n}@{s.lineno}')
+                o.havoc = (n, s.lineno)
+                env[n] = o
+        if exhausted:
+            ctx.event('loop_exhausted', line=s.lineno)
+            it.exec_block(s.orelse, env)
+            return None
+        elem = on_elem(it, s, seq) if on_elem is not None else None
+        if elem is None:
+            elem = cx.Opaque(f'elem@{s.lineno}')
+            elem.elem_of = seq
+        ctx.event('generic_iteration', line=s.lineno, seq=seq, elem=elem)
+        it.bind_target(s.target, elem, env)
+        try:
+            it.exec_block(s.body, env)
+        except cx._Break:
+            ctx.event('loop_break', line=s.lineno)
+            return None
+        except cx._Continue:
+            pass
+        check(it, env, 'iteration', s)
+        raise cx._Stop(('generic-iteration-end', s.lineno))
+    return hook
